@@ -567,7 +567,7 @@ func (c *c14) opState() {
 	keepA, keepS := rawList(a.auth), rawList(a.state)
 	var gotA, gotS []gmsl.PDU
 	var err error
-	if guardLivelock(func() {
+	if guard(r, "CheckStateResponse", func() {
 		gotA, gotS, err = gmsl.CheckStateResponse(context.Background(), in, rm.ver, c.ver, c.prov.fn, uidFor)
 	}) {
 		r.Logf("  CheckStateResponse aborted: provider asked without bound (off-contract provider)")
@@ -676,7 +676,7 @@ func (c *c14) opSendJoin() {
 	keepA, keepS := rawList(a.auth), rawList(a.state)
 	joinRaw := append([]byte{}, join.JSON()...)
 	var res gmsl.StateResponse
-	if guardLivelock(func() {
+	if guard(r, "CheckSendJoinResponse", func() {
 		res, err = gmsl.CheckSendJoinResponse(context.Background(), rm.ver, in, c.ver, join, c.prov.fn, uidFor)
 	}) {
 		r.Logf("  CheckSendJoinResponse aborted: provider asked without bound (off-contract provider)")
